@@ -28,6 +28,13 @@ for kind, pre in (("sync", "s"), ("thread", "t"), ("async", "a")):
     for p in POL:
         row("%s_%s2" % (pre, p), kind, limit=2, policy=p)
         row("%s_%s3_ttl2" % (pre, p), kind, limit=3, policy=p, ttl=2)
+    # a policy without any bound (nothing is ever evicted, the recency / frequency bookkeeping is idle)
+    for p in POL[1:]:
+        row("%s_%s_unb" % (pre, p), kind, policy=p)
+    # a value whose Clone is a scheduling point of the cooperative scheduler: what the library does while
+    # it clones a cached value (e.g. under a DashMap shard guard or the map's read lock) can be interleaved
+    row(pre + "_yield", kind, ret="y")
+    row(pre + "_yield_lru2", kind, ret="y", limit=2, policy="lru")
     row(pre + "_ttl1", kind, ttl=1)
     row(pre + "_tlru2_ttl3_w03", kind, limit=2, policy="tlru", ttl=3, w="0.3")
     row(pre + "_tlru3_w15", kind, limit=3, policy="tlru", w="1.5")
@@ -147,7 +154,7 @@ def attr_text(r):
     return ", ".join(a)
 
 
-RET_TY = {"i64": "i64", "res": "Result<i64, String>", "res_std": "std::result::Result<i64, String>",
+RET_TY = {"y": "Y", "i64": "i64", "res": "Result<i64, String>", "res_std": "std::result::Result<i64, String>",
           "str": "String", "res_str": "Result<String, String>"}
 
 
@@ -173,12 +180,12 @@ KEYFMT = {
 
 
 def conv_expr(ret):
-    return {"i64": "raw_i64(r)", "res": "raw_res(r)", "res_std": "raw_res(r)", "str": "raw_str(r)",
+    return {"y": "raw_y(r)", "i64": "raw_i64(r)", "res": "raw_res(r)", "res_std": "raw_res(r)", "str": "raw_str(r)",
             "res_str": "raw_res_str(r)"}[ret]
 
 
 def out_expr(ret):
-    return {"i64": "out_i64(&v)", "res": "out_res(&v)", "res_std": "out_res(&v)", "str": "out_str(&v)",
+    return {"y": "out_y(&v)", "i64": "out_i64(&v)", "res": "out_res(&v)", "res_std": "out_res(&v)", "str": "out_str(&v)",
             "res_str": "out_res_str(&v)"}[ret]
 
 
